@@ -21,6 +21,8 @@ def truth(I, run, v: Value, node, fork=True) -> Optional[bool]:
         return len(v.items) > 0
     if isinstance(v, Ref):
         c = run.cell(v)
+        if hasattr(c, "obj") and not isinstance(c, (HObj, HList, HDict)):
+            return bool(c.obj)
         if isinstance(c, HList):
             return len(c.items) > 0
         if isinstance(c, HDict):
@@ -377,6 +379,11 @@ def contains(I, run, item: Value, cont: Value, node) -> bool:
     item, cont = I.resolve(run, item), I.resolve(run, cont)
     if isinstance(cont, Ref):
         c = run.cell(cont)
+        if hasattr(c, "obj") and not isinstance(c, (HObj, HList, HDict)):
+            from . import native
+            r = native.apply(I, run, lambda x: x in c.obj, [item], {}, node)
+            if isinstance(r, C):
+                return bool(r.v)
         if isinstance(c, HDict):
             item = _as_key(I, run, item)
             if isinstance(item, C):
@@ -670,6 +677,11 @@ def subscript(I, run, base: Value, idx, node) -> Value:
     idx = I.resolve(run, idx)
     if isinstance(base, Ref):
         c = run.cell(base)
+        if hasattr(c, "obj") and not isinstance(c, (HObj, HList, HDict)):
+            from . import native
+            r = native.apply(I, run, lambda k: c.obj[k], [idx], {}, node)
+            if r is not None:
+                return r
         if isinstance(c, HDict):
             idx = _as_key(I, run, idx)
             if isinstance(idx, C) and _hashable(idx.v):
@@ -774,6 +786,10 @@ def simplify_be16(res: Value) -> Value:
 def store_subscript(I, run, base: Value, idx, v: Value, node):
     if isinstance(base, Ref):
         c = run.cell(base)
+        if hasattr(c, "obj") and not isinstance(c, (HObj, HList, HDict)):
+            from . import native
+            if native.apply(I, run, lambda k, x: c.obj.__setitem__(k, x), [idx, v], {}, node) is not None:
+                return
         if isinstance(c, HDict):
             idx = _as_key(I, run, idx)
             if isinstance(idx, C) and _hashable(idx.v):
@@ -822,6 +838,11 @@ def dict_update(I, run, d: HDict, src: Value, node):
             d.items.update(c.items)
             d.sym_items.extend(c.sym_items)
             d.open = d.open or c.open
+            return
+        if hasattr(c, "obj") and not isinstance(c, (HObj, HList, HDict)) and hasattr(c.obj, "keys"):
+            from . import native
+            for k in list(c.obj.keys()):
+                d.items[k] = native.from_py(I, run, c.obj[k])
             return
         if isinstance(c, HObj):
             d.open = True
@@ -1160,7 +1181,11 @@ def call(I, run, fn: Value, args: List[Value], kwargs: Dict[str, Value], node) -
                 return C(_struct.calcsize(I.resolve(run, args[0]).v))
             except _struct.error:
                 I.raise_builtin(run, "struct.error", node)
-        from . import hof
+        from . import hof, native
+        if name in native.CTORS:
+            r = native.construct(I, run, name, args, kwargs, node)   # on constants / other library objects: computed by the library
+            if r is not None:
+                return r
         if name in hof.MAKERS:
             return hof.make(name, args, kwargs)
         if name in hof.DIRECT:
@@ -1199,6 +1224,9 @@ def call(I, run, fn: Value, args: List[Value], kwargs: Dict[str, Value], node) -
         if name in EXT_BASES_EXC(I):
             return run.alloc(HObj(name, {"args": Tup(tuple(args))}))
         return external(I, run, name, args, kwargs, node)
+    if isinstance(fn, App) and fn.op == "nmethod":
+        from . import native
+        return native.call_method(I, run, fn.args[0], fn.args[1].v, args, kwargs, node)
     if isinstance(fn, App) and fn.op == "cmethod":
         return call_cmethod(I, run, fn.args[0], fn.args[1].v, args, kwargs, node)
     if isinstance(fn, App) and fn.op == "attr":
@@ -1334,6 +1362,8 @@ def str_method(I, run, recv, name, args, kwargs, node) -> Value:
 # ---------------------------------------------------------------- builtins
 def _b_len(I, run, args, kwargs, node):
     v = I.resolve(run, args[0])
+    if isinstance(v, Ref) and hasattr(run.cell(v), "obj") and not isinstance(run.cell(v), (HObj, HList, HDict)):
+        return C(len(run.cell(v).obj))
     if isinstance(v, C):
         try:
             return C(len(v.v))
@@ -1609,6 +1639,20 @@ def _b_sorted(I, run, args, kwargs, node):
                 I.raise_builtin(run, "TypeError", node)
         if len(items) <= 1:
             return run.alloc(HList(items))
+        # concrete elements (constants, tuples, library objects), an optional key function of the analysed code: sorted by the
+        # interpreter of the analyser, comparisons that Python refuses (two Morsels) raise TypeError
+        from . import native
+        try:
+            pys = [native.to_py(I, run, x, node) for x in items]
+            keyf = kwargs.get("key")
+            keys = [native.to_py(I, run, call(I, run, keyf, [x], {}, node), node) for x in items] if keyf is not None and keyf != NONE else pys
+            rev = kwargs.get("reverse", FALSE)
+            order = sorted(range(len(items)), key=lambda i: keys[i], reverse=bool(I.truth(run, rev, node)))
+            return run.alloc(HList([items[i] for i in order]))
+        except native.NotConcrete:
+            pass
+        except TypeError as e:
+            I.raise_builtin(run, "TypeError", node, C(str(e)))
     return App("sorted", (it,) if items is None else (Tup(tuple(items)),), "list")
 
 
